@@ -13,8 +13,10 @@ from vf.cvc.mem import Ptr
 from spec import c_hmac
 
 ERR_NULL, ERR_NR_ROUNDS, ERR_DIGEST_SIZE = 1, 8, 9
-VARIANTS = {'SHA224': ('src/SHA224.c', [28]), 'SHA256': ('src/SHA256.c', [32]), 'SHA384': ('src/SHA384.c', [48]),
-            'SHA512': ('src/SHA512.c', [64, 28, 32])}
+# variant -> (file, digest sizes, finalize function, the functions take digest_size as a parameter)
+VARIANTS = {'SHA224': ('src/SHA224.c', [28], 'sha_finalize', True), 'SHA256': ('src/SHA256.c', [32], 'sha_finalize', True),
+            'SHA384': ('src/SHA384.c', [48], 'sha_finalize', True), 'SHA512': ('src/SHA512.c', [64, 28, 32], 'sha_finalize', True),
+            'SHA1': ('src/SHA1.c', [20], 'sha_finalize', False), 'MD5': ('src/MD5.c', [16], 'md5_finalize', False)}
 
 
 def _lit(tr, v):
@@ -31,9 +33,10 @@ def _state(tr, p, old):
     mem = tr.ctx._mem(old)
     f = p.region.fields
     cur = mem.get(f['curlen'].id)
-    if cur is None:
+    tot = mem.get(f['totbits'].id)
+    if cur is None or tot is None:
         raise ClauseError('hash state not initialised')
-    return (mem[f['h'].id], mem[f['buf'].id], cur, mem[f['totbits'].id]), f['h'].bits
+    return (mem[f['h'].id], mem[f['buf'].id], cur, tot), f['h'].bits
 
 
 def h_absorbed(tr, args):
@@ -75,43 +78,56 @@ def h_step(tr, args):
 
 
 def build(variant):
-    path, sizes = VARIANTS[variant]
+    path, sizes, fin, has_ds = VARIANTS[variant]
     R = Registry('pbkdf2_' + variant)
     R.file = path
     R.helpers = {'absorbed': h_absorbed, 'squeezed': h_squeezed, 'useq': h_useq, 'xseq': h_xseq, 'hmac_step': h_step}
     note = 'assumed: hash update / finalize are the uninterpreted absorb / squeeze of spec/c_hmac.py on the complete hash state'
     R.assumptions.append(note)
+    DS = 'digest_size' if has_ds else str(sizes[0])
+    keep = ' and hs.digest_size == old(hs.digest_size)' if has_ds else ''
     R.fn(variant + '_update', abstract=True, params=['hs', 'buf', 'len'], ret='int', regions={'hs': 'struct', 'buf': 'u8[len]'},
-         modifies=['hs'], ensures={'absorb': 'absorbed(hs, buf, len) and hs.digest_size == old(hs.digest_size)'}, note=note)
-    R.fn('sha_finalize', abstract=True, params=['hs', 'hash', 'digest_size'], ret='int',
-         regions={'hs': 'struct', 'hash': 'u8[digest_size]'}, modifies=['hs', 'hash'],
-         requires={'size': 'digest_size == hs.digest_size'},
-         ensures={'squeeze': 'all(hash[t] == squeezed(hs, t) for t in range(digest_size))'}, note=note)
+         modifies=['hs'], ensures={'absorb': 'absorbed(hs, buf, len)' + keep}, note=note)
+    if has_ds:
+        R.fn(fin, abstract=True, params=['hs', 'hash', 'digest_size'], ret='int',
+             regions={'hs': 'struct', 'hash': 'u8[digest_size]'}, modifies=['hs', 'hash'],
+             requires={'size': 'digest_size == hs.digest_size'},
+             ensures={'squeeze': 'all(hash[t] == squeezed(hs, t) for t in range(digest_size))'}, note=note)
+    else:
+        R.fn(fin, abstract=True, params=['hs', 'hash'], ret='void',
+             regions={'hs': 'struct', 'hash': 'u8[%s]' % DS}, modifies=['hs', 'hash'],
+             ensures={'squeeze': 'all(hash[t] == squeezed(hs, t) for t in range(%s))' % DS}, note=note)
 
     fn = variant + '_pbkdf2_hmac_assist'
-    cfgs = [{'name': 'ds%d' % n, 'set': {'digest_size': n}, 'cost': 40} for n in sizes]
+    if has_ds:
+        cfgs = [{'name': 'ds%d' % n, 'set': {'digest_size': n}, 'cost': 40} for n in sizes]
+    else:
+        cfgs = [{'name': 'ds%d' % sizes[0], 'cost': 40}]
     cfgs += [{'name': 'null_' + p, 'null': [p], 'cost': 1} for p in ('inner', 'outer', 'first_hmac', 'result')]
     NULLS = 'null(inner) or null(outer) or null(first_hmac) or null(result)'
-    OK = 'not (%s) and iterations != 0 and digest_size == inner.digest_size and digest_size == outer.digest_size' % NULLS
-    R.fn(fn, regions={'inner': 'struct', 'outer': 'struct', 'first_hmac': 'u8[digest_size]', 'result': 'u8[digest_size]'},
+    SIZES_OK = ' and digest_size == inner.digest_size and digest_size == outer.digest_size' if has_ds else ''
+    OK = 'not (%s) and iterations != 0' % NULLS + SIZES_OK
+    ens = {
+        'null_args': '(%s) ==> ret == %d' % (NULLS, ERR_NULL),
+        'rounds': 'not (%s) and iterations == 0 ==> ret == %d' % (NULLS, ERR_NR_ROUNDS),
+        'ok': OK + ' ==> ret == 0',
+        # T = U_1 xor ... xor U_iterations over ALL digest bytes
+        'xor_of_all': OK + ' ==> all(result[t] == xseq(iterations, t) for t in range(%s))' % DS}
+    if has_ds:
+        ens['digest_size'] = ('not (%s) and iterations != 0 and (digest_size != inner.digest_size or digest_size != outer.digest_size) ==> ret == %d'
+                              % (NULLS, ERR_DIGEST_SIZE))
+    R.fn(fn, regions={'inner': 'struct', 'outer': 'struct', 'first_hmac': 'u8[%s]' % DS, 'result': 'u8[%s]' % DS},
          configs=cfgs, modifies=['result'], cost=1, quick=[c['name'] for c in cfgs],
          # recursive definitions of the ghost sequences, first element (assumed: they DEFINE Useq / Xseq)
-         requires={'def_U1': 'null(first_hmac) or all(useq(1, t) == first_hmac[t] and xseq(1, t) == first_hmac[t] for t in range(digest_size))'},
-         ensures={
-             'null_args': '(%s) ==> ret == %d' % (NULLS, ERR_NULL),
-             'rounds': 'not (%s) and iterations == 0 ==> ret == %d' % (NULLS, ERR_NR_ROUNDS),
-             'digest_size': 'not (%s) and iterations != 0 and (digest_size != inner.digest_size or digest_size != outer.digest_size) ==> ret == %d'
-                            % (NULLS, ERR_DIGEST_SIZE),
-             'ok': OK + ' ==> ret == 0',
-             # T = U_1 xor ... xor U_iterations over ALL digest_size bytes
-             'xor_of_all': OK + ' ==> all(result[t] == xseq(iterations, t) for t in range(digest_size))'},
+         requires={'def_U1': 'null(first_hmac) or all(useq(1, t) == first_hmac[t] and xseq(1, t) == first_hmac[t] for t in range(%s))' % DS},
+         ensures=ens,
          loops={0: dict(
              invariants={'range': '1 <= i and i <= iterations',
-                         'last': 'all(last_hmac[t] == useq(i, t) for t in range(digest_size))',
-                         'acc': 'all(result[t] == xseq(i, t) for t in range(digest_size))'},
+                         'last': 'all(last_hmac[t] == useq(i, t) for t in range(%s))' % DS,
+                         'acc': 'all(result[t] == xseq(i, t) for t in range(%s))' % DS},
              # recursive definitions, step k -> k+1 (assumed at the start of the iteration: they DEFINE Useq(i+1), Xseq(i+1))
-             unfold={'def_U': 'all(useq(i + 1, t) == hmac_step(inner, outer, i, digest_size, t) for t in range(digest_size))',
-                     'def_X': 'all(xseq(i + 1, t) == xseq(i, t) ^ useq(i + 1, t) for t in range(digest_size))'},
-             lemmas={'xor_step': 'all(result[t] == iter(result[t]) ^ last_hmac[t] for t in range(digest_size))'},
+             unfold={'def_U': 'all(useq(i + 1, t) == hmac_step(inner, outer, i, %s, t) for t in range(%s))' % (DS, DS),
+                     'def_X': 'all(xseq(i + 1, t) == xseq(i, t) ^ useq(i + 1, t) for t in range(%s))' % DS},
+             lemmas={'xor_step': 'all(result[t] == iter(result[t]) ^ last_hmac[t] for t in range(%s))' % DS},
              decreases='iterations - i')})
     return R
